@@ -695,6 +695,10 @@ impl<V: VringT<GM> + Clone + Send + Sync + 'static> Rig<V> {
 
     pub fn negotiate(&mut self, feats: u64, pf: u64) -> Value {
         let r1 = self.peer.request(1, &[], &[], true);
+        if r1.status == "timeout" {
+            // the daemon has stopped answering: the remaining negotiation requests would each wait for the same verdict
+            return json!({"offered": limbs(0), "offered_pf": limbs(0), "set_features": "timeout"});
+        }
         let offered = if r1.body.len() == 8 { le64(&r1.body, 0) } else { 0 };
         self.peer.offered_pf = offered >> 30 & 1 == 1;
         let r2 = self.peer.request(2, &u64b(feats), &[], false);
